@@ -31,7 +31,7 @@ pub fn exec_action(w: &mut World, a: &Value) -> Value {
         "Leave" => w.op_leave(c, g, ts, rank),
         "Deliver" => w.op_deliver(c, a["e"].as_str().unwrap(), ts, rank),
         "Restart" => w.op_restart(c),
-        "Welcome" => w.op_welcome(c, a["w"].as_str().unwrap(), a["what"].as_str().unwrap()),
+        "Welcome" => w.op_welcome(c, a["w"].as_str().unwrap(), a["what"].as_str().unwrap(), a["fresh"].as_bool().unwrap_or(false)),
         _ => panic!("unknown op {op}"),
     }
 }
@@ -46,6 +46,7 @@ pub struct RandCfg {
     pub profile: String, // core | ...
     pub restarts: bool,
     pub observers: bool,
+    pub replay_welcomes: bool,
 }
 
 fn fingerprint(post: &Value) -> String {
@@ -158,8 +159,10 @@ pub fn random_history(cfg: &RandCfg, rng: &mut StdRng, r: &mut Recorder, clients
             let mine: Vec<String> = w.welcomes.iter().filter(|(_, wi)| wi.to == c).map(|(k, _)| k.clone()).collect();
             if mine.is_empty() { None } else {
                 let wn = mine[rng.gen_range(0..mine.len())].clone();
-                let what = ["process", "accept", "accept", "decline"][rng.gen_range(0..4)];
-                Some(exec_action(&mut w, &json!({"op":"Welcome","c":c,"w":wn,"what":what})))
+                let what = ["process", "accept", "accept", "decline", "process"][rng.gen_range(0..5)];
+                // now and then the same rumor comes back under a fresh wrapper id (replay)
+                let fresh = cfg.replay_welcomes && what == "process" && rng.gen_bool(0.4);
+                Some(exec_action(&mut w, &json!({"op":"Welcome","c":c,"w":wn,"what":what,"fresh":fresh})))
             }
         } else if roll < 18 {
 
@@ -276,6 +279,87 @@ pub fn random_history(cfg: &RandCfg, rng: &mut StdRng, r: &mut Recorder, clients
     let _ = chain_push;
 }
 
+/// Directed-random invitation scenarios (C16): invitations valid / replayed under fresh wrapper ids / for a group the
+/// recipient already holds (active, pending, inactive) / delivered to somebody else, in random order relative to the
+/// group's other events, to recipients in every state.
+pub fn welcome_history(cfg: &RandCfg, rng: &mut StdRng, r: &mut Recorder, clients: &[&str]) {
+    let mut w = World::new(cfg.mdk.clone());
+    for (i, c) in clients.iter().enumerate() {
+        let be = match cfg.backend.as_str() { "mixed" => if i % 2 == 0 { "mem" } else { "sql" }, x => x };
+        w.add_client(c, be);
+    }
+    r.emit(json!({"op":"Reset"}));
+    let g = "g1";
+    let admins: Vec<String> = if rng.gen_bool(0.5) { vec!["c1".into(), "c2".into()] } else { vec!["c1".into()] };
+    r.emit(w.op_create("c1", g, &["c2".to_string()], &admins));
+    let mut clock = 10u64;
+    let mut rk = 1u64;
+    let mut step = |w: &mut World, r: &mut Recorder, a: Value| -> Value { let v = exec_action(w, &a); r.emit(v.clone()); v };
+    let joiner = if rng.gen_bool(0.7) { "c3" } else { "c4" };
+    for round in 0..rng.gen_range(1..4) {
+        clock += 1; rk = rk % 15 + 1;
+        // the inviter adds the joiner (possibly while the joiner still holds the group from an earlier round)
+        let inviter = if admins.len() > 1 && rng.gen_bool(0.4) { "c2" } else { "c1" };
+        // (re-adding somebody the inviter still sees as a member would create a second leaf for one identity:
+        //  multi-device groups are outside this model)
+        if w.project(inviter, g)["members"].as_array().map(|a| a.iter().any(|x| x == joiner)).unwrap_or(true) { break; }
+        let v = step(&mut w, r, json!({"op":"Commit","c":inviter,"g":g,"kind":"add","arg":[joiner],"ts":clock,"rank":rk}));
+        if v["res"] != json!("Ok") { break; }
+        let e = v["e"].as_str().unwrap().to_string();
+        let wn = v["welcomes"][0].as_str().unwrap().to_string();
+        if rng.gen_bool(0.7) { step(&mut w, r, json!({"op":"Merge","c":inviter,"g":g})); } else { step(&mut w, r, json!({"op":"Deliver","c":inviter,"e":e,"ts":clock,"rank":0})); }
+        for m in ["c1", "c2"] { if m != inviter { step(&mut w, r, json!({"op":"Deliver","c":m,"e":e,"ts":clock,"rank":0})); } }
+        // welcome handling in random order with replays and bystanders
+        let n_ops = rng.gen_range(2..7);
+        for _ in 0..n_ops {
+            let who = if rng.gen_bool(0.8) { joiner } else { clients[rng.gen_range(0..clients.len())] };
+            let what = ["process", "process", "accept", "decline", "accept"][rng.gen_range(0..5)];
+            let fresh = what == "process" && rng.gen_bool(0.35);
+            step(&mut w, r, json!({"op":"Welcome","c":who,"w":wn,"what":what,"fresh":fresh}));
+            if rng.gen_bool(0.3) {
+                clock += 1;
+                let s = ["c1", "c2", joiner][rng.gen_range(0..3)];
+                let v = step(&mut w, r, json!({"op":"Send","c":s,"g":g,"ts":clock,"rank":0,"mts":clock}));
+                if v["res"] == json!("Ok") {
+                    let me = v["e"].as_str().unwrap().to_string();
+                    for m in ["c1", "c2", joiner] { step(&mut w, r, json!({"op":"Deliver","c":m,"e":me,"ts":clock,"rank":0})); }
+                }
+            }
+            if rng.gen_bool(0.25) {
+                clock += 1; rk = rk % 15 + 1;
+                let v = step(&mut w, r, json!({"op":"Commit","c":"c1","g":g,"kind":"rename","arg":format!("r{round}{clock}"),"ts":clock,"rank":rk}));
+                if v["res"] == json!("Ok") {
+                    let ce = v["e"].as_str().unwrap().to_string();
+                    step(&mut w, r, json!({"op":"Merge","c":"c1","g":g}));
+                    for m in ["c2", joiner] { step(&mut w, r, json!({"op":"Deliver","c":m,"e":ce,"ts":clock,"rank":0})); }
+                }
+            }
+        }
+        // an old welcome may come back later (replay after the joiner moved on)
+        if rng.gen_bool(0.5) {
+            step(&mut w, r, json!({"op":"Welcome","c":joiner,"w":wn,"what":"process","fresh":true}));
+            if rng.gen_bool(0.5) {
+                let what2 = ["accept", "decline"][rng.gen_range(0..2)];
+                step(&mut w, r, json!({"op":"Welcome","c":joiner,"w":wn,"what":what2,"fresh":false}));
+            }
+        }
+        // sometimes remove the joiner again so that the next round re-invites an ex-member; sometimes the joiner
+        // never sees its removal (it then holds the group as Active when re-invited)
+        if rng.gen_bool(0.6) {
+            clock += 1; rk = rk % 15 + 1;
+            let v = step(&mut w, r, json!({"op":"Commit","c":"c1","g":g,"kind":"remove","arg":[joiner],"ts":clock,"rank":rk}));
+            if v["res"] == json!("Ok") {
+                let re = v["e"].as_str().unwrap().to_string();
+                step(&mut w, r, json!({"op":"Merge","c":"c1","g":g}));
+                step(&mut w, r, json!({"op":"Deliver","c":"c2","e":re,"ts":clock,"rank":0}));
+                if rng.gen_bool(0.6) { step(&mut w, r, json!({"op":"Deliver","c":joiner,"e":re,"ts":clock,"rank":0})); }
+            }
+        }
+    }
+    let posts: Vec<Value> = clients.iter().map(|c| json!({"c":c,"g":g,"post":w.project(c, g)})).collect();
+    r.emit(json!({"op":"Snapshot","posts":posts}));
+}
+
 pub fn run_random(cfg: &RandCfg, r: &mut Recorder) {
     let clients = ["c1", "c2", "c3", "c4"];
     let sql: Vec<&str> = match cfg.backend.as_str() {
@@ -286,6 +370,6 @@ pub fn run_random(cfg: &RandCfg, r: &mut Recorder) {
     r.emit(meta(&clients, &["g1"], &sql, &cfg.mdk));
     let mut rng = StdRng::seed_from_u64(cfg.seed);
     for _ in 0..cfg.histories {
-        random_history(cfg, &mut rng, r, &clients);
+        if cfg.profile == "welcome" { welcome_history(cfg, &mut rng, r, &clients); } else { random_history(cfg, &mut rng, r, &clients); }
     }
 }
